@@ -24,8 +24,8 @@ LEVEL_TEXT = ('Coq theorems over an executable Gallina model of shlex.read_token
               'CPython unicode_escape decode/encode, strict UTF-8 and Latin-1: totality (only SyntaxError escapes, for every string incl. lone surrogates, every '
               'configuration, every name table); UTF-8 round trip; minimal-quote round trip for every list of scalar-value strings, at top level and inside n levels of '
               'nested-command brackets; utils.str.dqrepr -> tokenize is the identity on every list of strings over all code points, at top level and inside n levels of brackets (full statement, after the repair of C13.F15); '
-              'the text of every tree of bare words (any depth) tokenises to exactly that tree, unbalanced brackets give SyntaxError, and with nesting off brackets are literal.  Tied to the source by regenerated tables '
-              '(separators, whitespace, bracket/quote sets, except clause, codec chain and the nonAscii guard of _handleToken) and a differential run against the real tokenizer and codecs on every check.')
+              'the text of every tree of bare words (any depth) tokenises to exactly that tree, unbalanced brackets give SyntaxError, and with nesting off brackets are literal; the configuration used for a message is the one set for its channel/network (model of getSpecific/conf.get), so brackets '' set for a channel make brackets literal there.  Tied to the source by regenerated tables '
+              '(separators, whitespace, bracket/quote sets, except clause, codec chain and the nonAscii guard of _handleToken, the argument order of the brackets/pipeSyntax/quotes lookups in tokenize() against the signatures of conf.get and Value.getSpecific) and a differential run against the real tokenizer and codecs on every check.')
 LEVEL_NOTE = ('Trusted: Coq kernel, gen_tables.py, extraction + OCaml driver, the Python harness, CPython codecs (modelled, differentially tested). '
               'Python code is modelled, not verified.  Not proved, explored only: escape spellings other than minimal quoting and dqrepr (\\xHH, octal, \\uHHHH of ASCII text); quoted '
               'arguments inside nested commands mixed with bare command words; renderings with other spacing than one space.')
@@ -42,6 +42,12 @@ def _mods():
         import supybot.callbacks as callbacks
         import supybot.conf as conf
         import supybot.utils as utils
+        import os
+        root = os.path.realpath(boot.REPO)
+        for mod in (callbacks, conf, utils):
+            # an editable install of the repository is importable without boot: make sure the tree under test is the one loaded
+            if not os.path.realpath(mod.__file__).startswith(root + os.sep):
+                raise RuntimeError('%s loaded from %s, not from %s' % (mod.__name__, mod.__file__, root))
         _state.update(callbacks=callbacks, conf=conf, dqrepr=utils.str.dqrepr)
     return _state
 
@@ -303,6 +309,158 @@ def check_tree(ctx, inp):
     return text
 
 
+
+# ---------------------------------------------------------------- per-channel / per-network configuration lookup
+NET_OK, NET_GHOST, CHAN_OK, CHAN_BAD = 'vn0', 'ghostnet', '#v', 'notachannel'
+LEVELS = ('chan', 'net', 'netchan')
+LOOK_TEXT = 'e [a] <b> {c} (d) "q q" \'r r\' `s s` | f'
+
+
+class _StubDriver(object):
+    def reconnect(self, *a, **k):
+        pass
+
+    def die(self):
+        pass
+
+
+def _live():
+    """a connected network NET_OK (world.getIrc finds it); NET_GHOST is never connected"""
+    m = _mods()
+    if 'live' not in _state:
+        import supybot.irclib as irclib
+        import supybot.world as world
+        if world.getIrc(NET_OK) is None:
+            m['conf'].registerNetwork(NET_OK)
+            irc = irclib.Irc(NET_OK)
+            irc.driver = _StubDriver()
+        _state['live'] = True
+    c = m['conf'].supybot.commands
+    return {'brackets': c.nested.brackets, 'pipe': c.nested.pipeSyntax, 'quotes': c.quotes}
+
+
+def _clear_specific(var):
+    for name in (CHAN_OK, ':' + NET_OK):
+        try:
+            var.unregister(name)
+        except Exception:
+            pass
+
+
+def impl_lookup(inp):
+    """callbacks.tokenize(s, channel, network) with values set at the global / channel / network / network+channel level"""
+    vars_ = _live()
+    m = _mods()
+    _state['cfg'] = None
+    m['conf'].supybot.commands.nested.setValue(bool(inp['nested']))
+    conv = {'brackets': lambda v: v, 'pipe': bool, 'quotes': lambda v: v}
+    try:
+        for k, var in vars_.items():
+            _clear_specific(var)
+            base, chan, net, netchan = inp['values'][k]
+            var.setValue(conv[k](base))
+            if chan is not None:
+                var.get(CHAN_OK).setValue(conv[k](chan))
+            if net is not None:
+                var.get(':' + NET_OK).setValue(conv[k](net))
+            if netchan is not None:
+                var.get(':' + NET_OK).get(CHAN_OK).setValue(conv[k](netchan))
+        try:
+            r = m['callbacks'].tokenize(inp['s'], channel=inp['loc']['channel'], network=inp['loc']['network'])
+        except BaseException as e:  # noqa
+            if isinstance(e, (KeyboardInterrupt, SystemExit)):
+                raise
+            return ('raise', exn_name(e))
+        if not (isinstance(r, list) and all_str(r)):
+            return ('bad', repr(r)[:200])
+        return ('ok', [canon_tree(x) for x in r])
+    finally:
+        for var in vars_.values():
+            _clear_specific(var)
+        _state['cfg'] = None
+
+
+def lookup_flags(inp):
+    n, c = inp['loc']['network'], inp['loc']['channel']
+    _live()     # boots first: importing supybot before boot.boot() would load the pip-installed tree, not VERIF_REPO
+    import supybot.ircutils as ircutils
+    import supybot.world as world
+    return [int(bool(n)), int(bool(n) and world.getIrc(n) is not None), int(bool(c)), int(bool(c) and bool(ircutils.isChannel(c)))]
+
+
+def lookup_wire(inp):
+    def store(k):
+        base, chan, net, netchan = inp['values'][k]
+        return [base, wire.opt(chan), wire.opt(net), wire.opt(netchan)]
+    return [9, [inp['nested'], store('brackets'), store('pipe'), store('quotes'), lookup_flags(inp), name_table(inp['s']), inp['s']]]
+
+
+def should_apply(inp):
+    """the configuration that unambiguously SHOULD apply at this location, or None when values set at different
+    applicable levels conflict (then only the correspondence with the model, which mirrors the code's precedence, is checked)"""
+    fl = lookup_flags(inp)
+    net, chan = bool(fl[1]), bool(fl[3])
+    out = {'nested': inp['nested']}
+    for k in ('brackets', 'pipe', 'quotes'):
+        base, cv, nv, ncv = inp['values'][k]
+        applicable = []
+        if chan and cv is not None:
+            applicable.append(cv)
+        if net and nv is not None:
+            applicable.append(nv)
+        if net and chan and ncv is not None:
+            applicable.append(ncv)
+        if len(set(map(str, applicable))) > 1:
+            return None
+        out[k] = applicable[0] if applicable else base
+    return out
+
+
+def check_lookup(ctx, inp, mo):
+    """configuration looked up for (channel, network): correspondence with the model + the tokenizer must behave as with the value that should apply"""
+    got = impl_lookup(inp)
+    if mo is not None:
+        mw = wire.r(mo, dec_trees)
+        if mw != got:
+            ctx.disagree(inp, mw, got, 'callbacks.tokenize(s, channel, network)')
+    if got[0] == 'bad' or (got[0] == 'raise' and got[1] != 'SyntaxError'):
+        ctx.fail(inp, 'tokenize(s, channel, network) gave %r' % (got,))
+    exp = should_apply(inp)
+    if exp is not None:
+        want = impl_wrapper({'nested': exp['nested'], 'brackets': exp['brackets'], 'pipe': int(bool(exp['pipe'])), 'quotes': exp['quotes']}, inp['s'])
+        if got != want:
+            ctx.fail(inp, 'in channel %r on network %r the settings brackets=%r pipe=%r quotes=%r apply (set for that channel/network), '
+                          'but %r tokenises to %r instead of %r' % (inp['loc']['channel'], inp['loc']['network'], exp['brackets'], exp['pipe'],
+                                                                   exp['quotes'], inp['s'], got, want))
+
+
+def gen_lookups(ctx, rng):
+    out = []
+    locs = [{'network': n, 'channel': c} for n in (None, NET_OK, NET_GHOST) for c in (None, CHAN_OK, CHAN_BAD)]
+    defaults = {'brackets': ['[]', None, None, None], 'pipe': [0, None, None, None], 'quotes': ['"', None, None, None]}
+    # the seeded-change shape first: nesting disabled / another pair in one channel
+    for v in ('', '<>', '{}'):
+        for text in ('echo [echo hi]', 'echo <echo hi> {x}'):
+            vals = dict(defaults, brackets=['[]', v, None, None])
+            out.append({'op': 'lookup', 'nested': 1, 'values': vals, 'loc': {'network': NET_OK, 'channel': CHAN_OK}, 's': text})
+    alts = {'brackets': ['', '<>', '{}', '()', '[]'], 'pipe': [1, 0], 'quotes': ["'", '`', '', '"\'', '"']}
+    import itertools as it
+    for k in ('brackets', 'pipe', 'quotes'):
+        for mask in it.product((0, 1), repeat=3):
+            for loc in locs:
+                for variant in (0, 1):
+                    base = defaults[k][0] if variant == 0 else alts[k][-1 - variant % len(alts[k])]
+                    vals = dict((kk, list(vv)) for kk, vv in defaults.items())
+                    vals[k] = [base] + [(alts[k][(i + variant) % len(alts[k])] if mask[i] else None) for i in range(3)]
+                    out.append({'op': 'lookup', 'nested': 1, 'values': vals, 'loc': dict(loc), 's': LOOK_TEXT})
+    for _ in range(ctx.n(300)):
+        vals = {}
+        for k in ('brackets', 'pipe', 'quotes'):
+            vals[k] = [rng.choice(alts[k])] + [rng.choice(alts[k]) if rng.random() < 0.4 else None for _ in range(3)]
+        out.append({'op': 'lookup', 'nested': 0 if rng.random() < 0.1 else 1, 'values': vals, 'loc': dict(rng.choice(locs)),
+                    's': rng.choice([LOOK_TEXT, 'a [b <c {d (e)}>] "f" | g', rand_text(rng)])})
+    return out
+
 # ---------------------------------------------------------------- generators
 QUOTES = ['"', '"', '"\'', '', '`"\'', "'"]
 
@@ -376,6 +534,11 @@ ARG_CORPUS = [['\u00c2\u0080'], ['\u00c3\u00a9'], ['a', 'b c'], ['"', '\\', '\\"
 
 def run(ctx):
     rng = ctx.rng
+    lookups = gen_lookups(ctx, rng)
+    lo = ctx.model([lookup_wire(inp) for inp in lookups])
+    for inp, mo in zip(lookups, lo):
+        ctx.case('lookup', inp)
+        check_lookup(ctx, inp, mo)
     default = {'nested': 1, 'brackets': '[]', 'pipe': 0, 'quotes': '"'}
     piped = {'nested': 1, 'brackets': '[]', 'pipe': 1, 'quotes': '"'}
     texts = []      # (cfg, s, kind)
@@ -553,6 +716,8 @@ def replay(ctx, inp):
         check_tree(sub, inp)
     elif op == 'nested':
         check_nested(sub, inp)
+    elif op == 'lookup':
+        check_lookup(sub, inp, None)
     return sub.failures[0]['detail'] if sub.failures else None
 
 
@@ -561,6 +726,9 @@ CLASSES = {}     # C13.F15 (dqrepr of Latin-1 text that is valid UTF-8) is repai
 
 def shrink(ctx, inp):
     op = inp.get('op')
+    if op == 'lookup':
+        small = shrink_seq(inp['s'], lambda t: replay(ctx, dict(inp, s=t)) is not None)
+        return dict(inp, s=small)
     if op == 'text':
         small = shrink_seq(inp['s'], lambda s: replay(ctx, dict(inp, s=s)) is not None)
         return dict(inp, s=small)
